@@ -13,6 +13,7 @@ import (
 	"github.com/miekg/dns"
 	"github.com/semihalev/sdns/config"
 	"github.com/semihalev/sdns/internal/verif/l3"
+	"github.com/semihalev/sdns/internal/verif/srvh"
 	"github.com/semihalev/sdns/internal/verif/vlib"
 	"github.com/semihalev/sdns/internal/wire"
 	"github.com/semihalev/sdns/middleware"
@@ -378,7 +379,117 @@ func (s *subStub) ServeDNS(ctx context.Context, ch *middleware.Chain) {
 	ch.Cancel()
 }
 
+// execPoolEscape: the decoded entry (Server.serveMsgBy: pooled chain) after a
+// panic that ESCAPES the chain (pipeline without the recovery middleware),
+// then requests that overlap in time. Every capturing writer must receive its
+// own reply and nothing else.
+func execPoolEscape(f []string) vlib.Res {
+	seed, rounds := vlib.AtoU64(f[2]), vlib.Atoi(f[3])
+	r := vlib.NewR(seed)
+	l := srvh.Start(srvh.Opts{Handlers: []string{"edns", "cache"}})
+	defer l.Stop()
+	l.Stub.Set(stubRespond)
+	l.Stub.Delay = gatedDelay
+	l.Stub.Panic = stubPanic
+	poolSeq++
+	mk := func(c, seq int, beh string) (*dns.Msg, []byte) {
+		m := new(dns.Msg)
+		m.SetQuestion(fmt.Sprintf("pe%d-c%d-s%d-%s.z.c10.", poolSeq, c, seq, beh), dns.TypeTXT)
+		m.Id = uint16(c)<<10 | uint16(seq)
+		m.SetEdns0(1232, false)
+		raw, _ := m.Pack()
+		return m, raw
+	}
+	serve := func(c int, req *dns.Msg) (w *srvh.MsgWriter, escaped bool) {
+		defer func() {
+			if recover() != nil {
+				escaped = true
+			}
+		}()
+		w = l.Msg(req, &net.TCPAddr{IP: net.IPv4(198, 51, 100, byte(c)), Port: 6000 + c}, vlib.Pick(r, []string{"doh", "doq"}))
+		return w, false
+	}
+	or := "ok"
+	judge := func(c int, raw []byte, w *srvh.MsgWriter, what string) {
+		if or != "ok" || w == nil {
+			return
+		}
+		if len(w.Msgs) > 1 {
+			or = fail("pool/escape/two-replies-to-one-request", "%s (client %d) received %d replies", what, c, len(w.Msgs))
+			return
+		}
+		for _, m := range w.Msgs {
+			b, _ := m.Pack()
+			if why := whyNotOwn(raw, b); why != "" {
+				or = fail("pool/escape/reply-of-another-request", "%s (client %d): %s", what, c, why)
+			}
+		}
+	}
+	seq, escapes, overlaps := 0, 0, 0
+	for round := 0; round < rounds && or == "ok"; round++ {
+		// 1. a few requests whose handler panics; nothing recovers inside the chain
+		for k := 0; k < 1+r.Intn(2); k++ {
+			seq++
+			req, raw := mk(1, seq, "pn")
+			w, esc := serve(1, req)
+			if esc {
+				escapes++
+			}
+			judge(1, raw, w, "the panicking request")
+		}
+		// 2. 2-3 requests that overlap: the first ones are held inside the handler while the last runs
+		n := 2 + r.Intn(2)
+		type inflight struct {
+			c    int
+			raw  []byte
+			w    *srvh.MsgWriter
+			name string
+			done chan struct{}
+		}
+		var fl []*inflight
+		for k := 0; k < n-1; k++ {
+			seq++
+			req, raw := mk(2+k, seq, "ok")
+			name := strings.ToLower(req.Question[0].Name)
+			gateMu.Lock()
+			gates[name] = make(chan struct{})
+			gateMu.Unlock()
+			x := &inflight{c: 2 + k, raw: raw, name: name, done: make(chan struct{})}
+			before := l.Stub.Calls.Load()
+			go func() {
+				defer close(x.done)
+				x.w, _ = serve(x.c, req)
+			}()
+			for t := time.Now(); l.Stub.Calls.Load() == before && time.Since(t) < 2*time.Second; {
+				time.Sleep(100 * time.Microsecond)
+			}
+			fl = append(fl, x)
+		}
+		seq++
+		req, raw := mk(9, seq, "ok")
+		w, _ := serve(9, req)
+		for _, x := range fl {
+			gateMu.Lock()
+			close(gates[x.name])
+			delete(gates, x.name)
+			gateMu.Unlock()
+			<-x.done
+		}
+		overlaps++
+		judge(9, raw, w, "the request that ran while others were in flight")
+		for _, x := range fl {
+			judge(x.c, x.raw, x.w, "a request held in its handler")
+		}
+	}
+	return vlib.Res{Impl: fmt.Sprintf("escapes=%d overlaps=%d", escapes, overlaps), Oracle: or, Tags: "nt,decoded-escape"}
+}
+
+var poolSeq int
+
 func execPool(f []string) vlib.Res {
+	if f[1] == "escape" {
+		return execPoolEscape(f)
+	}
 	// pool subq <pattern of w/n>: sequential internal queries through the pooled BufferWriter + pooled chain
 	reg := middleware.NewRegistry()
 	st := &subStub{}
